@@ -84,7 +84,9 @@ def filter_signal(sig, fs, pass_type, f_range, filter_type=None, n_cycles=None, 
     kw.update(filter_type=filter_type, n_cycles=n_cycles, n_seconds=n_seconds)
     CUR.calls.append(('filter_signal', dict(n=len(sig), fs=fs, pass_type=pass_type, f_range=f_range,
                                             remove_edges=remove_edges, kwargs=kw)))
-    check_param_range(fs, 'fs', (0, float('inf')))
+    # real library: fs < 0 fails the range check, fs == 0 fails the filter design (ValueError both)
+    if fs <= 0:
+        raise ValueError("Invalid cutoff frequency: frequencies must be greater than 0 and less than fs/2.")
     if CUR.filter_signal is None:
         raise StubNotConfigured('filter_signal')
     return CUR.filter_signal(sig, fs, pass_type, f_range, remove_edges, kw)
@@ -93,6 +95,8 @@ def filter_signal(sig, fs, pass_type, f_range, filter_type=None, n_cycles=None, 
 def amp_by_time(sig, fs, f_range=None, remove_edges=True, **filter_kwargs):
     CUR.calls.append(('amp_by_time', dict(n=len(sig), fs=fs, f_range=f_range, remove_edges=remove_edges,
                                           kwargs=dict(filter_kwargs))))
+    if fs <= 0:
+        raise ValueError("Invalid cutoff frequency: frequencies must be greater than 0 and less than fs/2.")
     if CUR.amp_by_time is None:
         raise StubNotConfigured('amp_by_time')
     return CUR.amp_by_time(sig, fs, f_range, remove_edges, dict(filter_kwargs))
@@ -105,6 +109,8 @@ def detect_bursts_dual_threshold(sig, fs, dual_thresh, f_range=None, min_n_cycle
                       dict(n=len(sig), fs=fs, dual_thresh=dual_thresh, f_range=f_range,
                            min_n_cycles=min_n_cycles, min_burst_duration=min_burst_duration,
                            kwargs=dict(filter_kwargs))))
+    if fs <= 0:
+        raise ValueError("Invalid cutoff frequency: frequencies must be greater than 0 and less than fs/2.")
     if CUR.dual_threshold is None:
         raise StubNotConfigured('detect_bursts_dual_threshold')
     return CUR.dual_threshold(sig, fs, dual_thresh, f_range, min_n_cycles, min_burst_duration,
